@@ -750,8 +750,10 @@ impl PreferenceManager {
     fn reset_files_from_preference_change(&mut self, changed_pref: &str, changed_value: &str) -> Result<()> {       
         if changed_pref == "Language" && changed_value == "Auto" {
             // Language must have had a non-Auto value -- set LanguageAuto to old value so (probable) next change to LanguageAuto works well
-            self.api_prefs.prefs.insert("LanguageAuto".to_string(),
-                                self.api_prefs.prefs.get("Language").unwrap_or(&DEFAULT_LANG).clone() );
+            // (the old value is wherever "Language" currently lives -- it is a user pref unless it was overridden)
+            let old_language = self.pref_to_string("Language");
+            let old_language = if old_language == NO_PREFERENCE {DEFAULT_LANG.clone()} else {Yaml::String(old_language)};
+            self.api_prefs.prefs.insert("LanguageAuto".to_string(), old_language);
             return Ok( () );
         }
 
